@@ -107,6 +107,7 @@ pub enum ROp {
     /// adapter `a` is moved into the callback closure of source `src` (released whenever that closure is dropped)
     AsyncGive { a: usize, src: SrcId },
     Wakeup,
+    Stop,
     InsertBad { which: u8, fd: i32 },
 }
 
